@@ -394,6 +394,51 @@ theorem c23_add_never_panics {s s' : State} {t slot : Nat} (h : Reachable s) :
           exact this rfl
         · simp at hs
 
+/-! ## No thread gets stuck inside a call -/
+
+theorem extractFirst_of_find {p : α → Bool} {l : List α} {e : α} (h : l.find? p = some e) :
+    ∃ rest, extractFirst p l = some (e, rest) := by
+  induction l with
+  | nil => simp at h
+  | cons x xs ih =>
+    unfold extractFirst
+    by_cases hp : p x = true
+    · simp only [List.find?_cons, hp, Option.some.injEq] at h
+      subst h
+      exact ⟨xs, by simp [hp]⟩
+    · simp only [List.find?_cons, hp] at h
+      obtain ⟨rest, hr⟩ := ih h
+      exact ⟨x :: rest, by simp [hp, hr]⟩
+
+/-- A thread that is between two atomic steps of a call can always perform its next step, whatever
+the other threads did in between (the model has no state in which a call cannot complete). -/
+theorem c23_pending_step_enabled (s : State) (t : Nat) :
+    (∀ slot ty cap, pendOf s t = some (.wantLock slot ty cap) → (step s (.allocLock t)).isSome) ∧
+    (∀ slot ty cap, pendOf s t = some (.fallback slot ty cap) → (step s (.allocFallback t)).isSome) ∧
+    (∀ b, pendOf s t = some (.wantPush b) → (step s (.addPush t)).isSome) := by
+  have key : ∀ pd, pendOf s t = some pd →
+      ∃ t' rest, extractFirst (fun e => e.1 == t) s.pend = some ((t', pd), rest) := by
+    intro pd h
+    unfold pendOf at h
+    cases hf : s.pend.find? (fun e => e.1 == t) with
+    | none => simp [hf] at h
+    | some e =>
+      simp only [hf, Option.map_some, Option.some.injEq] at h
+      obtain ⟨rest, hr⟩ := extractFirst_of_find hf
+      exact ⟨e.1, rest, by rw [hr, ← h]⟩
+  refine ⟨fun slot ty cap h => ?_, fun slot ty cap h => ?_, fun b h => ?_⟩
+  · obtain ⟨t', rest, hex⟩ := key _ h
+    simp only [step, hex]
+    repeat' split
+    all_goals rfl
+  · obtain ⟨t', rest, hex⟩ := key _ h
+    simp only [step, hex]
+    repeat' split
+    all_goals rfl
+  · obtain ⟨t', rest, hex⟩ := key _ h
+    simp only [step, hex]
+    rfl
+
 /-! ## Non-vacuity: a concrete three-thread schedule -/
 
 def tF32 : Ty := ⟨4, 4⟩
